@@ -2365,7 +2365,17 @@ class WBEMConnection:  # pylint: disable=too-many-instance-attributes
 
         # Create parameter list
 
-        plist = [_cim_xml.EXPPARAMVALUE(x[0], tocimxml(x[1]))
+        def expparam_xml(value):
+            """
+            Return the CIM-XML element for an export method parameter value.
+            EXPPARAMVALUE can contain an INSTANCE element but none of the
+            elements that carry an instance together with its path.
+            """
+            if isinstance(value, CIMInstance):
+                return value.tocimxml(ignore_path=True)
+            return tocimxml(value)
+
+        plist = [_cim_xml.EXPPARAMVALUE(x[0], expparam_xml(x[1]))
                  for x in params.items() if x[1] is not None]
 
         # Build XML request
